@@ -3,6 +3,7 @@ import ScyllaVerif.Model.Replicas
 import ScyllaVerif.Model.Plan
 import ScyllaVerif.Model.Sharding
 import ScyllaVerif.Model.Tablets
+import ScyllaVerif.Model.TabletsRefresh
 /-
 Model of the route of a token-aware request (C12): a COMPOSITION of the C03 / C04 / C05 / C11 / C15 models plus the two
 pieces that exist only here - the policy over a *tablet* replica set and the per-node connection pool.
@@ -19,11 +20,12 @@ pieces that exist only here - the policy over a *tablet* replica set and the per
                                     `dc_replicas_for_token` / `replicas_for_token` of the C15 model, `&[]` when no tablet
                                     covers the token.  `ReplicaSetInner::PlainSharded`: `len`, `choose`, iteration and the
                                     "ordered" view are all that one slice, every replica carrying the TABLET's shard.
-* `KNode`, `refreshNodes`, `removedIds`, `recreatedNodes`, `refreshTablets`, `learnTablet`
-                                  ← `ClusterState::{calculate_new_topology, perform_tablets_maintenance, update_tablets}`
-                                    (`cluster/state.rs:275-341, 375-405, 647-675`) around C15's `Info.maintenance` /
-                                    `Info.addTablet`: which `Node` objects survive a metadata refresh, which host ids
-                                    count as removed / re-created, and the re-resolution of unknown tablet replicas.
+* `toPeer`, `StateOp`, `RState.{init, step, run}`
+                                  ← histories of tablet feedback and metadata refreshes, run on C15's refresh model
+                                    `Model/TabletsRefresh.lean` (`ClusterState::{calculate_new_topology,
+                                    perform_tablets_maintenance, update_tablets}`, `cluster/state.rs:275-341, 375-405,
+                                    647-675`): which `Node` objects survive a refresh, which host ids count as removed /
+                                    re-created, the re-resolution of unknown tablet replicas.
 * `filteredT` … `planT`           ← `DefaultPolicy::{filtered_replicas, pick_first_replica, pick_random_replica,
                                     maybe_shuffled_replicas, pick, fallback}` (`default.rs:145-541, 664-838`) on a
                                     `PlainSharded` set.  The token-unaware steps / groups are literally those of the C05
@@ -125,51 +127,19 @@ def tabletReplicas (rc : RCluster) (xs : List Tablets.Tablet) (tok : Int) (dc : 
     | some d => Tablets.dcReplicasForToken xs tok (dcName d)
     | none => Tablets.replicasForToken xs tok).getD []).filterMap (resolve rc.peers)
 
-/-! ### metadata refreshes: what happens to the tablet map when the topology changes -/
+/-! ### metadata refreshes: what happens to the tablet map when the topology changes
 
-/-- A known node (`known_nodes` entry): the node's data, its address (an opaque number; the hook derives it from the
-position in the peer list) and the identity of its `Arc<Node>` (`gen` = number of the refresh that created the object,
-0 for `ClusterState::new`). -/
-structure KNode where
-  node : Node
-  addr : Nat
-  gen : Nat
-  deriving DecidableEq, Repr
+The refresh itself (`ClusterState::{calculate_new_topology, perform_tablets_maintenance, update_tablets}`) is C15's model
+`Model/TabletsRefresh.lean` (`CState`, `refresh`, `learn`); here it is only fed with the peers of the routing model. -/
 
-/-- The C15 view of a known node object. -/
-def KNode.toT (k : KNode) : Tablets.Node := ⟨k.node.id, k.node.dc.map dcName, k.gen⟩
+/-- Rack name on the Rust side of the case syntax (`topology.rs::rack_name`). -/
+def rackName (r : Nat) : String := "r" ++ Nat.repr r
 
-/-- `ClusterState::calculate_new_topology` (`cluster/state.rs:275-341`) for peers whose host-filter verdict does not
-change: the existing `Node` object is kept iff datacenter, rack and address are unchanged; otherwise (and for a new
-host id) a new object is created (`gen`). -/
-def refreshNodes (old : List KNode) (peers : List (Node × Nat)) (gen : Nat) : List KNode :=
-  peers.map (fun p =>
-    match old.find? (fun k => k.node.id == p.1.id) with
-    | some k => if k.node.dc = p.1.dc ∧ k.node.rack = p.1.rack ∧ k.addr = p.2 then k else ⟨p.1, p.2, gen⟩
-    | none => ⟨p.1, p.2, gen⟩)
-
-/-- `removed_nodes` of `perform_tablets_maintenance` (`state.rs:375-405`): host ids known before and not after. -/
-def removedIds (old new : List KNode) : List Nat :=
-  (old.filter (fun k => !(new.any (fun k' => k'.node.id == k.node.id)))).map (·.node.id)
-
-/-- `recreated_nodes`: host ids known before and after whose `Node` object is another one (`!Arc::ptr_eq`). -/
-def recreatedNodes (old new : List KNode) : List (Nat × Tablets.Node) :=
-  old.filterMap (fun k =>
-    match new.find? (fun k' => k'.node.id == k.node.id) with
-    | some k' => if k'.gen != k.gen then some (k.node.id, k'.toT) else none
-    | none => none)
-
-/-- `perform_tablets_maintenance` + `TabletsInfo::perform_maintenance` (the C15 model) on a refresh. -/
-def refreshTablets (inf : Tablets.Info) (keyspaces : List (String × Bool × List String)) (old new : List KNode) :
-    Tablets.Info :=
-  inf.maintenance keyspaces (removedIds old new) (new.map (fun k => (k.node.id, k.toT))) (recreatedNodes old new)
-
-/-- `ClusterState::update_tablets` for one tablet: `Tablet::from_raw_tablet` with `known_nodes` as translator (unknown
-host ids are skipped and remembered), then `TabletsInfo::add_tablet`. -/
-def learnTablet (inf : Tablets.Info) (known : List KNode) (spec : String × String) (first last : Int)
-    (raw : List (Nat × Nat)) : Tablets.Info :=
-  (inf.addTablet spec (Tablets.Tablet.fromRaw first last raw
-    (fun id => (known.find? (fun k => k.node.id == id)).map KNode.toT))).1
+/-- A peer of the routing model with its address, as a `system.peers` row. The nodes of the correspondence run are
+rejected by the host filter (pool-less hook nodes): `accepted = false`. For such a node the `Node` object survives a
+refresh iff datacenter, rack and address are unchanged - the same rule as for an accepted, enabled one. -/
+def toPeer (p : Node × Nat) : TabletsRefresh.Peer :=
+  ⟨p.1.id, p.1.dc.map dcName, p.1.rack.map rackName, p.2, false⟩
 
 /-- What happens to the cluster state between two requests, as far as routing is concerned. -/
 inductive StateOp where
@@ -178,23 +148,17 @@ inductive StateOp where
   /-- a metadata refresh (`ClusterState::new_updated`) to these peers `(node, address)` -/
   | refresh (peers : List (Node × Nat))
 
-/-- The routing-relevant state: `known_nodes`, `locator.tablets`, number of refreshes so far. -/
-structure RState where
-  known : List KNode
-  tablets : Tablets.Info
-  refreshes : Nat
+/-- The routing-relevant state: `known_nodes` and `locator.tablets` (C15's `CState`). -/
+abbrev RState := TabletsRefresh.CState
 
-/-- `ClusterState::new`: every peer gets a fresh `Node`; maintenance on an empty tablet map creates the (empty) entries
-of the tables of tablet-based keyspaces. -/
+/-- `ClusterState::new`: a refresh from the empty state (every peer gets a fresh `Node`; maintenance on an empty tablet
+map creates the entries of the tables of tablet-based keyspaces). -/
 def RState.init (keyspaces : List (String × Bool × List String)) (peers : List (Node × Nat)) : RState :=
-  let known := peers.map (fun p => (⟨p.1, p.2, 0⟩ : KNode))
-  ⟨known, refreshTablets Tablets.Info.empty keyspaces [] known, 0⟩
+  TabletsRefresh.refresh TabletsRefresh.CState.init (peers.map toPeer) keyspaces
 
 def RState.step (keyspaces : List (String × Bool × List String)) (st : RState) : StateOp → RState
-  | .learn spec first last raw => { st with tablets := learnTablet st.tablets st.known spec first last raw }
-  | .refresh peers =>
-    let new := refreshNodes st.known peers (st.refreshes + 1)
-    ⟨new, refreshTablets st.tablets keyspaces st.known new, st.refreshes + 1⟩
+  | .learn spec first last raw => (TabletsRefresh.learn st spec first last raw).1
+  | .refresh peers => TabletsRefresh.refresh st (peers.map toPeer) keyspaces
 
 def RState.run (keyspaces : List (String × Bool × List String)) (st : RState) (ops : List StateOp) : RState :=
   ops.foldl (RState.step keyspaces) st
